@@ -16,7 +16,7 @@ def run(ctx):
     for d in [x for x in dis if x["kind"] != "fixupL-property"][:5]:
         ctx.violation("fixupL-correspondence", "correspondence fixupL/countnz <-> Model/Fixup.lean (theorem Slu.fixupL_spec) no longer checks", d, no_input=True)
     n_cases, nmax = (600, 48) if ctx.quick() else (12000, 160)
-    recs = S.sweep(ctx, n_cases, nmax, precs="ds", drivers=("gssv", "gssvx"))
+    recs = S.sweep(ctx, n_cases, nmax, precs="dszc", drivers=("gssv", "gssvx"))
     bad = S.judge(ctx, recs, ["wfL", "wfU", "permr", "permc"], "well-formedness")
     S.coverage(ctx, recs)
     ctx.coverage["wf_failures"] = bad
